@@ -17,10 +17,13 @@ import treeutil as tu
 from common import time_limit, Timeout
 
 ID = "C18"
-GEN_DEPENDS = []
+GEN_DEPENDS = ["C18Kernels"]
 RULE = ("simulator x admissible parameters (birth > death >= 0, tip counts 1.., population sizes, genes per species, namespaces "
         "absent / too small / large / with T-labels) x generator (scripted dyadic draws incl. forced total extinctions and draws "
-        "one ulp below 1, or random.Random(seed)); thorough adds every decision tape of bounded depth (small scope) and "
+        "one ulp below 1, or random.Random(seed)); also mean_kingman_tree, discrete_birth_death_tree with a generation limit, the entry "
+        "options is_add_extinct_attr / repeat_until_success=False (compared) and is_assign_*_taxa=False (clause d only), star_tree; on the "
+        "scripted stream every argument of rng.expovariate and the coalescent frames read back off Kingman trees are compared with "
+        "the model; thorough adds every decision tape of bounded depth (small scope) and "
         "fresh-interpreter runs; non-trivial = at least one death event or restart, or >= 4 tips/genes")
 MODELLED_NOT_VERIFIED = [
     "C18: the Lean event loops (bdRun, fbdRun, pbRun, coalesce, kingman, contained) are hand-written from birthdeath.birth_death_tree/"
@@ -36,6 +39,15 @@ MODELLED_NOT_VERIFIED = [
     "when a tree is returned (N equidistant distinct-taxon leaves); the known TypeError of the GSA pruning loop is tolerated; the fast "
     "variant's GSA, extinct/total stops and tree= continuation are oracle-only (no model)",
     "C18: retained extinct tips are recognised on the implementation by the library's own is_extinct attribute (None on extinct tips)",
+    "C18: tie A (Gen/C18Kernels.lean, harness/gen/c18kernels.py) regenerates the closed-form kernels only (rates handed to expovariate, "
+    "thresholds, slot / draw orders, time units, expected waiting times, the weighted-choice step, choose(k,2) for k <= 40 as a table "
+    "computed by the function's own source); the loops around them stay hand-written and are tied by correspondence. The rate traces of "
+    "uniform_pure_birth_tree / pure_kingman_tree (pbRates, kingRates) are closed forms of the model, not derived from its loops; no rate "
+    "trace for the contained coalescent and GSA; mean_kingman_tree lengths (k-th parts, not dyadic) are compared within 1e-9 relative",
+    "C18: repeat_until_success=False ending in TreeSimTotalExtinctionException, is_assign_extant_taxa / is_assign_extinct_taxa = False and "
+    "star_tree are not modelled (double run, tripwires, well-formedness only); as the code stands is_assign_extinct_taxa=False alone "
+    "still labels retained extinct tips and is_assign_extant_taxa=False alone labels nothing (both tests read is_assign_extant_taxa) - "
+    "outside the statement, recorded here",
 ]
 EXPLANATION = ("Theorems (Props/C18.lean) hold for EVERY draw list, i.e. every behaviour of the generator. wic_*: weighted_index_choice picks "
                "an index in range, of positive weight, characterised by cumulative sums, and always picks one for 0 <= u < 1. "
@@ -69,8 +81,16 @@ EXPLANATION = ("Theorems (Props/C18.lean) hold for EVERY draw list, i.e. every b
                "Final round: bd_taxa_range / fbd_taxa_range (members of the supplied namespace first, new taxa numbered on from n0), "
                "kingman_succeeds / pb_succeeds (every well-formed script yields a tree), dbd_only_script_errors. Stated limits: every bd_* "
                "result assumes an admissible start tree (GoodStart; default fresh tree admissible) (bd_only_script_errors assumes gauss draws that never lower a rate; bd_errors_any_rates does not); gsa_result / dbd_result are conditional on a tree being returned; expovariate's rate argument "
-               "is not modelled (waiting times are inputs). "
-               "Determinism (clause d) is definitional in the model (functions of arguments and draw list); its content is the tie: "
+               "is now an observable of the model (rate traces, compared call by call), the waiting times themselves stay inputs. "
+               "Extension round 3: bd_/fbd_/pb_/coalesce_stream_independent (generator threading: a run reads a prefix of the stream, leaves "
+               "exactly the rest, and its outcome is a function of the consumed prefix alone - any other future of the stream gives the "
+               "same state and leaves that future untouched); bd_rate_arg_const / bd_rate_trace_const / bd_rates_const / fbd_rate_trace "
+               "(without rate evolution every argument of expovariate is (extant tips) x (birth + death)), bd_rate_arg_pos (positive for "
+               "admissible rates); mean_kingman_result / mean_kingman_succeeds (mean_kingman_tree = pure_kingman_tree on the script with "
+               "the expected waiting times L*pop/choose(k,2) filled in); contained_kids_stream_independent; tie A bridges kernel_* + rates_getElem (24 theorems: the regenerated rate "
+               "formulas, stop / event thresholds, event-slot and gauss-draw orders, daughter rates, discrete thresholds, pure-birth rate, "
+               "coalescent rate / time units / expected time / period tests, choose(k,2) table, weighted-choice step are the model's). "
+               "Determinism (clause d) beyond that is definitional in the model (functions of arguments and draw list); its content is the tie: "
                "tripwires on GLOBAL_RNG / random.*, equal-state double runs with shaken memory layout, fresh-interpreter runs.")
 
 SC = 64      # time unit of the model: 1/SC
@@ -100,6 +120,7 @@ class ScriptRng(object):
         self.picks = []
         self.arity = []
         self.log = []
+        self.rates = []          # the argument of every expovariate call, as received (an intermediate observable)
         self.limit = spec.get("limit", 40000)
 
     def pick(self, k):
@@ -118,6 +139,7 @@ class ScriptRng(object):
 
     # -- the random.Random surface the simulators use
     def expovariate(self, rate):
+        self.rates.append(rate)
         v = (1 + self.pick(self.wgrid)) / 4.0
         self.log.append("w%d" % int(v * SC))
         return v
@@ -294,6 +316,19 @@ def scaled(x):
     return str(f.numerator)
 
 
+def mean_unit(n):
+    """a time unit 1/L in which every expected waiting time 1/choose(k, 2), 2 <= k <= n, is a whole number"""
+    L = 1
+    for k in range(2, n + 1):
+        c = k * (k - 1) // 2
+        g = L
+        m = c
+        while m:
+            g, m = m, g % m
+        L = L * c // g
+    return L
+
+
 def is_extinct_leaf(nd):
     """the library's own flag on a retained extinct tip (currently None; True would be the documented value)"""
     v = getattr(nd, "is_extinct", False)
@@ -304,6 +339,8 @@ def model_text(tree, leafname, mark_extinct=False, unit=None):
     """same text as the Lean renderers: leaf `L<name>:<len>` (`X…` for a retained extinct tip), internal `(<len> child child ...)`;
     lengths in units of 1/SC, or plain integers (generations) with unit=1"""
     def ln(x):
+        if isinstance(unit, tuple):
+            return repr(0.0 if x is None else float(x) * unit[1])
         if unit == 1:
             f = Fraction(0) if x is None else Fraction(x)
             if f.denominator != 1:
@@ -413,14 +450,24 @@ def run_sim(dendropy, case, rng):
         if tns is not None:
             kw["taxon_namespace"] = tns
         b, d = float(Fraction(p["b"])), float(Fraction(p["d"]))
+        for k, v in sorted((p.get("flags") or {}).items()):
+            kw[k] = v                  # is_add_extinct_attr / is_assign_extant_taxa / is_assign_extinct_taxa / repeat_until_success
         if p.get("start") is not None:
             kw.pop("taxon_namespace", None)
             kw["tree"] = start_tree(dendropy, p["start"])
-        if sim == "bd":
-            fn = treesim.birth_death_tree if p.get("via", "treesim") == "treesim" else birthdeath.birth_death_tree
-            return fn(b, d, birth_rate_sd=float(Fraction(p.get("bsd", "0"))), death_rate_sd=float(Fraction(p.get("dsd", "0"))),
-                      rng=rng, **kw), None
-        return birthdeath.fast_birth_death_tree(b, d, rng=rng, **kw), None
+        try:
+            if sim == "bd":
+                fn = treesim.birth_death_tree if p.get("via", "treesim") == "treesim" else birthdeath.birth_death_tree
+                return fn(b, d, birth_rate_sd=float(Fraction(p.get("bsd", "0"))), death_rate_sd=float(Fraction(p.get("dsd", "0"))),
+                          rng=rng, **kw), None
+            return birthdeath.fast_birth_death_tree(b, d, rng=rng, **kw), None
+        except dendropy.utility.error.TreeSimTotalExtinctionException:
+            if (p.get("flags") or {}).get("repeat_until_success") is not False:
+                raise
+            # the documented outcome of repeat_until_success=False; a one-node stand-in keeps the two runs comparable
+            t = dendropy.Tree()
+            t.seed_node.label = "TOTAL-EXTINCTION"
+            return t, "extinct"
     if sim == "gsa":
         tns = mk_namespace(dendropy, p.get("ns"))
         kw = {} if tns is None else {"taxon_namespace": tns}
@@ -431,7 +478,8 @@ def run_sim(dendropy, case, rng):
             return treesim.discrete_birth_death_tree(float(Fraction(p["b"])), float(Fraction(p["d"])),
                                                      birth_rate_sd=float(Fraction(p.get("bsd", "0"))),
                                                      death_rate_sd=float(Fraction(p.get("dsd", "0"))), ntax=p["n"],
-                                                     repeat_until_success=p["repeat"], rng=rng), None
+                                                     repeat_until_success=p["repeat"], rng=rng,
+                                                     **({} if p.get("mg") is None else {"max_time": p["mg"]})), None
         except dendropy.utility.error.TreeSimTotalExtinctionException:
             # documented outcome when repeat_until_success is False: a one-node stand-in keeps the two runs comparable
             t = dendropy.Tree()
@@ -445,6 +493,9 @@ def run_sim(dendropy, case, rng):
         pop = p["pop"]
         pop = float(Fraction(pop)) if isinstance(pop, str) else pop
         return treesim.pure_kingman_tree(tns, pop_size=pop, rng=rng), None
+    if sim == "mking":
+        # mean_kingman_tree: expected waiting times (no expovariate call), the pairs still come from rng.sample
+        return treesim.mean_kingman_tree(mk_namespace(dendropy, p["ns"]), pop_size=p["pop"], rng=rng), None
     if sim == "cont":
         sp, leaves = species_tree(dendropy, p["sp"])
         gmap = dendropy.TaxonNamespaceMapping.create_contained_taxon_mapping(
@@ -490,6 +541,13 @@ def rv_call(dendropy, case, rng):
         return probability.weighted_index_choice(a, rng=rng)
     if fn == "weighted_choice":
         return probability.weighted_choice(list(range(len(a))), a, rng=rng)
+    if fn == "star_tree":
+        from dendropy.simulate import treesim
+        tns = mk_namespace(dendropy, ["sp", a[0]])
+        t = treesim.star_tree(tns)
+        lv = leaves_of(t.seed_node)
+        ok = [id(l.taxon) for l in lv] == [id(x) for x in tns] and all(l._parent_node is t.seed_node for l in lv)
+        return [canon(t), "one leaf per taxon in namespace order under the seed" if ok or a[0] == 0 else "NOT a star over the namespace"]
     if fn == "rand_trees":
         from dendropy.simulate import treesim
         kw = {"birth_rate": 1.0, "death_rate": 0.5, "num_extant_tips": a[0]}
@@ -653,7 +711,7 @@ def model_line(case, log, tree, aux):
     if sim == "dbd":
         if Fraction(p.get("bsd", "0")) or Fraction(p.get("dsd", "0")):
             return None
-        head = ["dbd", str(rate_int(p["b"])), str(rate_int(p["d"])), str(RS), str(p["n"]), "-", "1" if p["repeat"] else "0"]
+        head = ["dbd", str(rate_int(p["b"])), str(rate_int(p["d"])), str(RS), opt(p["n"]), opt(p.get("mg")), "1" if p["repeat"] else "0"]
         want = "extinct" if aux == "extinct" else "ok " + model_text(tree, by_acc, unit=1)
         return " ".join(head + log), ("RAW", want)
     if sim == "pb":
@@ -673,6 +731,12 @@ def model_line(case, log, tree, aux):
                 log2.append(t)
             return " ".join(["king", str(p["ns"][1]), str(f.numerator)] + log2), model_text(tree, by_acc)
         return " ".join(["king", str(p["ns"][1]), str(p["pop"])] + log), model_text(tree, by_acc)
+    if sim == "mking":
+        n, pop = p["ns"][1], p["pop"]
+        L = mean_unit(n)
+        # lengths are k-th parts (1/3, 1/6, ...): not dyadic, so the implementation's floats are compared with the model's exact
+        # integers (units 1/L) within a relative tolerance, shape / order / labels exactly
+        return " ".join(["mking", str(n), str(pop), str(L)] + log), ("APPROX", "ok " + model_text(tree, by_acc, unit=("float", L)))
     if sim in ("cont", "ckt"):
         sp = p["sp"]
         n = len(sp["par"])
@@ -906,7 +970,8 @@ def one_case(ctx, dendropy, case, pending, compare=True):
     sim = case["sim"]
     if sim == "cont_hist":
         return history_case(ctx, dendropy, case, pending)
-    exact = case["rng"]["kind"] == "script"
+    scripted = case["rng"]["kind"] == "script"
+    exact = scripted and sim != "mking"      # mean_kingman_tree: lengths are k-th parts, not dyadic, under either generator
     runs = []
     junk = []
     for rep in range(2):
@@ -1008,10 +1073,10 @@ def one_case(ctx, dendropy, case, pending, compare=True):
             problems.append(("nondeterministic", "two runs from equal generator states differ: %s vs %s" % (outs[0][:300], outs[1][:300])))
         elif log is not None and log != runs[1][2].log:
             problems.append(("nondeterministic", "two runs from equal generator states consumed different draws"))
-        ctx.case([sim, case["params"], case["rng"]], True, kind=sim + "/evolving-rates/" + case["rng"]["kind"])
+        ctx.case([sim, case["params"], case["rng"]], True, kind=sim + "/" + case.get("d_label", "evolving-rates") + "/" + case["rng"]["kind"])
         for kind, what in problems:
             ctx.fail(kind, "%s: %s" % (describe(case), what), rec)
-        if compare and exact and sim == "bd" and not problems and not getattr(rng, "incomparable", False):
+        if compare and exact and sim == "bd" and not problems and not getattr(rng, "incomparable", False) and not case["params"].get("flags"):
             # rates evolving below zero are modelled too (`wicN`): the code's ZeroDivisionError is the model's `err state`,
             # any tree is compared as usual; other exception classes are left to the double run above
             p = case["params"]
@@ -1020,10 +1085,12 @@ def one_case(ctx, dendropy, case, pending, compare=True):
             if isinstance(res, str):
                 if res == "EXC ZeroDivisionError":
                     pending.append((line, rec, ("RAW", "err state")))
+                    pending.append(("rates " + line, rec, ("RATES", list(rng.rates), "per-rate-unit")))
             else:
                 try:
                     tns = res.taxon_namespace
                     pending.append((line, rec, ("RAW", "ok " + model_text(res, lambda nd: str(tns.accession_index(nd.taxon))))))
+                    pending.append(("rates " + line, rec, ("RATES", list(rng.rates), "per-rate-unit")))
                 except ValueError as e:
                     ctx.note("not comparable: %s" % e)
         return res
@@ -1047,7 +1114,11 @@ def one_case(ctx, dendropy, case, pending, compare=True):
         # ---- clauses (a)-(c)
         o_shape(tree, problems)
         p = case["params"]
-        if sim in ("bd", "fbd"):
+        if sim in ("bd", "fbd") and aux == "extinct":
+            # repeat_until_success=False: TreeSimTotalExtinctionException is the documented outcome; clause (d) only
+            nontrivial = True
+            ctx.count("total_extinction_exception_runs")
+        elif sim in ("bd", "fbd"):
             lv = leaves_of(tree.seed_node)
             rd = root_dists(tree, exact)
             if p.get("retain"):
@@ -1082,7 +1153,7 @@ def one_case(ctx, dendropy, case, pending, compare=True):
             o_taxa(tree, problems)
             o_equidistant(tree, exact, problems)
             nontrivial = nl >= 4
-        elif sim == "king":
+        elif sim in ("king", "mking"):
             o_taxa(tree, problems)
             if nl != p["ns"][1] or set(id(l.taxon) for l in leaves_of(tree.seed_node)) != set(id(t) for t in tree.taxon_namespace):
                 problems.append(("tip_count", "Kingman tree over %d taxa has %d leaves / not one leaf per taxon" % (p["ns"][1], nl)))
@@ -1113,7 +1184,7 @@ def one_case(ctx, dendropy, case, pending, compare=True):
         seen.add(kind)
         ctx.fail(kind, "%s: %s" % (describe(case), what), rec)
     # ---- correspondence with the model (scripted stream only)
-    if compare and exact and sim != "rv" and not problems:
+    if compare and scripted and sim != "rv" and not problems and not (sim in ("bd", "fbd") and isinstance(aux, str) and aux == "extinct"):
         try:
             ml = model_line(case, log, res, aux)
         except ValueError as e:
@@ -1121,6 +1192,27 @@ def one_case(ctx, dendropy, case, pending, compare=True):
             ml = None
         if ml is not None:
             pending.append((ml[0], rec, ml[1]))
+            # intermediate observables: what the simulator handed to rng.expovariate, call by call, against the model's rate trace
+            p = case["params"]
+            if sim in ("bd", "fbd"):
+                pending.append(("rates " + ml[0], rec, ("RATES", list(rng.rates), "per-rate-unit")))
+            elif sim == "pb" and p["ns"][1] >= 1:
+                pending.append(("rates pb %d %d" % (p["ns"][1], rate_int(p.get("b", "1"))), rec, ("RATES", list(rng.rates), "rate-unit-over")))
+            elif sim == "king":
+                pending.append(("rates king %d" % p["ns"][1], rec, ("RATES", list(rng.rates), "plain")))
+                if p["ns"][1] >= 2:
+                    # the coalescent frames read back off the simulated tree (node_waiting_time_pairs / extract_coalescent_frames)
+                    from dendropy.model import coalescent
+                    try:
+                        fr = coalescent.extract_coalescent_frames(res)
+                        want = "ok " + " ".join("%d:%s" % (k, scaled(fr[k])) for k in sorted(fr, reverse=True))
+                    except ValueError as e:
+                        want = None
+                        ctx.note("not comparable: %s" % e)
+                    except Exception as e:
+                        want = "raised %s: %s" % (type(e).__name__, str(e)[:120])
+                    if want is not None:
+                        pending.append(("frames" + ml[0][4:], rec, ("RAW", want)))
     return res
 
 
@@ -1132,6 +1224,45 @@ def full_case(case, rng):
     return rec
 
 
+def rates_agree(answer, logged, degree):
+    """the model's exact rates (integers in the rate unit / fractions) against the floats the generator received: a float operation
+    on exactly representable operands is correctly rounded, so float(exact value) must be the received number"""
+    toks = answer.split()
+    if not toks or toks[0] != "ok":
+        return False, answer
+    vals = []
+    for t in toks[1:]:
+        a, _, b = t.partition("/")
+        if not b:
+            f = Fraction(int(a))
+            f = f / RS if degree == "per-rate-unit" else f
+        else:
+            if int(b) == 0:
+                return False, answer
+            f = Fraction(int(a) * RS, int(b))       # n / (b / RS)
+        vals.append(f)
+    try:
+        same = len(vals) == len(logged) and all(float(v) == float(x) for v, x in zip(vals, logged))
+    except (OverflowError, ZeroDivisionError):
+        same = False
+    return same, " ".join(str(v) for v in vals)
+
+
+NUM_RX = None
+
+
+def approx_same(a, b, rel=1e-9):
+    """equal up to the numbers, which agree within `rel`"""
+    global NUM_RX
+    import re
+    if NUM_RX is None:
+        NUM_RX = re.compile(r"-?\d+(?:\.\d+)?(?:e[-+]?\d+)?")
+    if NUM_RX.sub("#", a) != NUM_RX.sub("#", b):
+        return False
+    xs, ys = NUM_RX.findall(a), NUM_RX.findall(b)
+    return len(xs) == len(ys) and all(abs(float(x) - float(y)) <= rel * max(1.0, abs(float(x)), abs(float(y))) for x, y in zip(xs, ys))
+
+
 def flush(ctx, pending):
     if not pending:
         return
@@ -1140,6 +1271,16 @@ def flush(ctx, pending):
         if m is None:
             continue
         ctx.compared()
+        if isinstance(want, tuple) and want[0] == "RATES":
+            ok, theirs = rates_agree(m.strip(), want[1], want[2])
+            if not ok:
+                ctx.disagree("rates/" + line.split(" ")[1], {"line": line if len(line) < 3000 else line[:3000] + "...", "case": rec},
+                             " ".join(repr(x) for x in want[1])[:600], theirs[:600])
+            continue
+        if isinstance(want, tuple) and want[0] == "APPROX":
+            if not approx_same(m.strip(), want[1]):
+                ctx.disagree(line.split(" ", 1)[0], {"line": line, "case": rec}, want[1], m.strip())
+            continue
         if isinstance(want, tuple):
             if m.strip() != want[1]:
                 ctx.disagree(line.split(" ", 1)[0], {"line": line if len(line) < 3000 else line[:3000] + "...", "case": rec}, want[1], m.strip())
@@ -1238,6 +1379,14 @@ def gen_bd(rng, max_n, sim="bd"):
     elif rng.random() < 0.1:
         force = rng.choice([["ulp"], ["lo", "ulp"], ["lo", "lo", "ulp"], ["zero"]])
     spec = gen_rngspec(rng, 0.3, force)
+    if rng.random() < 0.15:
+        # entry options that leave the tree as it is: no extinct-attribute bookkeeping; a documented exception instead of the restart
+        p["flags"] = rng.choice([{"is_add_extinct_attr": False}, {"repeat_until_success": False},
+                                 {"is_add_extinct_attr": False, "repeat_until_success": False}])
+        if p.get("retain"):
+            p["flags"].pop("is_add_extinct_attr", None)      # the oracle recognises retained extinct tips by that attribute
+            if not p["flags"]:
+                del p["flags"]
     if sim == "bd" and spec["kind"] == "script" and rng.random() < 0.2:
         # rate evolution (outside the statement's quantifier): only under the scripted generator, whose gauss() never
         # lowers a rate, so that every rate stays admissible
@@ -1269,6 +1418,22 @@ def gen_evolving(rng):
     return {"sim": "bd", "params": p, "rng": spec, "d_only": True}
 
 
+def gen_taxon_flags(rng, max_n):
+    """is_assign_extant_taxa / is_assign_extinct_taxa switched off (leaves may stay without taxon: outside clauses (a)-(c));
+    every such run must still be a function of its arguments and the supplied generator's state (clause d)"""
+    case = gen_bd(rng, max_n, rng.choice(["bd", "fbd"]))
+    p = case["params"]
+    p.pop("bsd", None)
+    p.pop("dsd", None)
+    p["flags"] = rng.choice([{"is_assign_extant_taxa": False}, {"is_assign_extinct_taxa": False},
+                             {"is_assign_extant_taxa": False, "is_assign_extinct_taxa": False}])
+    if rng.random() < 0.5 and "start" not in p:
+        p["retain"] = True
+    case["d_only"] = True
+    case["d_label"] = "taxon-flags"
+    return case
+
+
 def gen_gsa(rng, max_n):
     b = Fraction(rng.choice(RATES))
     d = b * rng.choice([Fraction(1, 4), Fraction(1, 2), Fraction(3, 4), Fraction(0), Fraction(7, 8)])
@@ -1286,6 +1451,9 @@ def gen_pb(rng, max_n):
 
 def gen_king(rng, max_n):
     n = rng.choice([1, 2, 3, rng.randint(2, max_n)])
+    if rng.random() < 0.25:
+        return {"sim": "mking", "params": {"ns": [rng.choice(["t", "sp"]), min(n, 12)], "pop": rng.choice([1, 1, 2, 5, 100, 0])},
+                "rng": gen_rngspec(rng, 0.3)}
     pop = rng.choice([1, 1, 2, 5, 100, 0, "1/2", "5/2"])
     return {"sim": "king", "params": {"ns": [rng.choice(["t", "sp"]), n], "pop": pop}, "rng": gen_rngspec(rng, 0.3)}
 
@@ -1334,7 +1502,7 @@ def gen_cont(rng, max_leaves):
 def gen_rv(rng):
     fn = rng.choice(["discrete_time_to_coalescence", "time_to_coalescence", "geometric_rv", "poisson_rv", "binomial_rv",
                      "num_poisson_events", "sample_multinomial", "weighted_index_choice", "weighted_choice", "poisson_rv",
-                     "rand_trees"])
+                     "rand_trees", "star_tree"])
     if fn == "discrete_time_to_coalescence":
         args = [rng.randint(3, 12), 1]
     elif fn == "time_to_coalescence":
@@ -1349,6 +1517,8 @@ def gen_rv(rng):
         args = [rng.choice([0.5, 1.0, 2.0]), rng.choice([1.0, 3.0])]
     elif fn == "rand_trees":
         args = [rng.randint(2, 6), rng.randint(1, 3), rng.choice(["map", "list"])]
+    elif fn == "star_tree":
+        args = [rng.randint(0, 9)]
     else:
         k = rng.randint(1, 12)
         args = [rng.choice([0.0, 0.5, 1.0, 1.0, 2.0, 0.25, 3.0]) for _ in range(k)]
@@ -1488,10 +1658,17 @@ def run(ctx):
             case = {"sim": "dbd", "params": {"b": rng.choice(["1/4", "3/8", "1/2"]), "d": rng.choice(["0", "1/8", "1/4"]),
                                              "n": rng.randint(2, 12), "repeat": rng.random() < 0.5},
                     "rng": gen_rngspec(rng, 0.4)}
+            if rng.random() < 0.4:
+                # the generation limit (`max_time`), alone or together with the tip count
+                case["params"]["mg"] = rng.randint(1, 6)
+                if rng.random() < 0.4:
+                    case["params"]["n"] = None
         else:
             case = gen_rv(rng)
         if rng.random() < 0.10:
             case = gen_evolving(rng)
+        if rng.random() < 0.03:
+            case = gen_taxon_flags(rng, max_n)
         if rng.random() < 0.05:
             case = gen_hist(rng)
         if rng.random() < 0.07:
@@ -1510,6 +1687,44 @@ def run(ctx):
     if ctx.tier == "thorough":
         ctx.set_budget(28, 800)
         exhaustive(ctx, dendropy, pending)
+
+
+def search(ctx, broken):
+    """a regenerated kernel left the supported subset, a bridge theorem no longer holds, or model and code disagree (rates, frames,
+    trees): look for a concrete failing input on the real code in the affected mechanisms - every simulator over small tip counts
+    with rates at the edge of the admissible domain (death just below birth, very small / large rates: a wrong rate formula then
+    hands expovariate a zero or negative rate), under the scripted and the genuine generator; the oracle judges every run"""
+    dendropy = __import__("dendropy")
+    rng = ctx.rng
+    elapsed = 0 if ctx.budget_s is None else max(0.0, ctx.budget_s - ctx.time_left())
+    ctx.budget_s = elapsed + ctx.pick(25, 240)
+    pending = []
+    cases = []
+
+    def spec(kind):
+        return {"kind": "real", "seed": rng.getrandbits(32)} if kind == "real" else gen_script(rng)
+    for n in range(1, 9):
+        for kind in ("real", "script"):
+            for (b, d) in (("1", "63/64"), ("1", "7/8"), ("1/4", "0"), ("3", "3/2"), ("1/64", "0"), ("64", "32")):
+                cases.append({"sim": "bd", "params": {"b": b, "d": d, "n": n, "ns": None, "via": "birthdeath"}, "rng": spec(kind)})
+                cases.append({"sim": "fbd", "params": {"b": b, "d": d, "n": n, "ns": None}, "rng": spec(kind)})
+                # (a time limit in units of the expected time between births, so that the expected tree size stays small)
+                cases.append({"sim": "bd", "params": {"b": b, "d": d, "max_time": str(Fraction(3, 2) / Fraction(b)), "ns": None, "via": "treesim"},
+                              "rng": spec(kind)})
+            for b in RATES + ["1/64", "64"]:
+                cases.append({"sim": "pb", "params": {"ns": ["sp", n], "b": b}, "rng": spec(kind)})
+            for pop in (0, 1, 2, 100, "1/2"):
+                cases.append({"sim": "king", "params": {"ns": ["sp", n], "pop": pop}, "rng": spec(kind)})
+                if isinstance(pop, int):
+                    cases.append({"sim": "mking", "params": {"ns": ["sp", n], "pop": pop}, "rng": spec(kind)})
+            cases.append({"sim": "dbd", "params": {"b": "1/4", "d": "1/8", "n": n + 1, "repeat": True, "mg": n}, "rng": spec(kind)})
+            cases.append(gen_cont(rng, 4))
+    for case in cases:
+        if ctx.out_of_time() or ctx.failures:
+            break
+        one_case(ctx, dendropy, case, pending)
+        ctx.count("search_cases")
+    flush(ctx, pending)
 
 
 def replay(ctx, rec):
